@@ -25,6 +25,10 @@ type specEnv struct {
 	topOld  string
 	errs    *[]string
 	where   string
+	// unfolding instances of defined spec functions met while evaluating a clause
+	// (flushed into the path condition, or kept under the quantifier that binds them)
+	facts    *[]string
+	noUnfold bool
 }
 
 type specErr string
@@ -107,6 +111,17 @@ func (st *State) evalSpecSafe(e *SExpr, env *specEnv, c *Clause) (v Value) {
 			panic(r)
 		}
 	}()
+	if env.facts == nil {
+		var facts []string
+		env.facts = &facts
+		defer func() {
+			// definitional instances met in this clause become part of the path condition
+			for _, f := range facts {
+				st.assume(f)
+			}
+			env.facts = nil
+		}()
+	}
 	return st.evalSpec(e, env)
 }
 
@@ -206,7 +221,25 @@ func (st *State) evalSpec(e *SExpr, env *specEnv) Value {
 				env.oldVars[e.Name] = Value{T: T, S: s, Term: name}
 			}
 		}
+		nFacts := 0
+		if env.facts != nil {
+			nFacts = len(*env.facts)
+		}
 		body := st.evalSpec(e.Args[0], env)
+		if env.facts != nil && len(*env.facts) > nFacts && body.S == SBool {
+			// definitional instances that mention the bound variable hold for every value of
+			// it: they leave the binder universally quantified (and stay facts of the clause)
+			var keep []string
+			keep = append(keep, (*env.facts)[:nFacts]...)
+			for _, f := range (*env.facts)[nFacts:] {
+				if strings.Contains(f, name) {
+					keep = append(keep, fmt.Sprintf("(forall ((%s %s)) %s)", name, s, f))
+				} else {
+					keep = append(keep, f)
+				}
+			}
+			*env.facts = keep
+		}
 		if had {
 			env.vars[e.Name] = saved
 		} else {
@@ -850,6 +883,9 @@ func (st *State) specCall(e *SExpr, env *specEnv) Value {
 			case "str_bytes":
 				return Value{S: SBytes, Term: app("str_bytes", x.Term)}
 			}
+		case "hlen":
+			// output length of the hash function H
+			return Value{S: SInt, Term: "hlenH"}
 		case "cat":
 			if len(args) == 0 {
 				return Value{S: SBytes, Term: "bempty"}
@@ -1061,18 +1097,46 @@ func (st *State) specCall(e *SExpr, env *specEnv) Value {
 				env.fail("%s: wrong number of arguments", fun.Name)
 			}
 			var ts, ss []string
+			denv := env
+			if sf.Pkg != "" {
+				if sp := st.eng.ssaPkg(sf.Pkg); sp != nil && sp.Pkg != env.pkg {
+					d2 := *env
+					d2.pkg = sp.Pkg
+					denv = &d2
+				}
+			}
 			for i, a := range args {
-				_, s := st.resolveSpecType(sf.Params[i], env)
+				_, s := st.resolveSpecType(sf.Params[i], denv)
 				v := st.coerceTo(st.evalSpec(a, env), s, env)
 				ts = append(ts, v.Term)
 				ss = append(ss, string(s))
 			}
-			rT, rs := st.resolveSpecType(sf.Result, env)
+			rT, rs := st.resolveSpecType(sf.Result, denv)
 			st.eng.pre.Fun(sf.Name, fmt.Sprintf("(%s) %s", strings.Join(ss, " "), rs))
 			if len(ts) == 0 {
 				return Value{T: rT, S: rs, Term: sf.Name}
 			}
-			return Value{T: rT, S: rs, Term: app(sf.Name, ts...)}
+			res := Value{T: rT, S: rs, Term: app(sf.Name, ts...)}
+			if sf.Body != nil && !env.noUnfold && env.facts != nil {
+				sub := *env
+				sub.noUnfold = true
+				sub.vars = map[string]Value{}
+				for i, pn := range sf.PNames {
+					pT, ps := st.resolveSpecType(sf.Params[i], denv)
+					sub.vars[pn] = Value{T: pT, S: ps, Term: ts[i]}
+				}
+				sub.oldVars = sub.vars
+				sub.frame = nil
+				sub.result = nil
+				if sf.Pkg != "" {
+					if sp := st.eng.ssaPkg(sf.Pkg); sp != nil {
+						sub.pkg = sp.Pkg
+					}
+				}
+				body := st.coerceTo(st.evalSpec(sf.Body, &sub), rs, env)
+				*env.facts = append(*env.facts, eq(res.Term, body.Term))
+			}
+			return res
 		}
 	}
 	env.fail("unknown function %s", fun)
